@@ -301,6 +301,11 @@ Plan genCodec(const std::string& prop, int tier, uint64_t batchSeed, uint64_t id
         nOps = 2 + r.below(8);
     else
         nOps = (1 + r.below(6)) * nNodes;
+    // one run in fifty: HUNDREDS of small encode calls on the same encoder(s) - whatever is counted, recycled or tidied up
+    // "every n-th call" (256, 512, 1000, 1024) gets its turn; the frame budget below still ends the run
+    const bool manyCalls = !wrapRun && r.chance(1, 50);
+    if (manyCalls)
+        nOps = 270 + r.below(850);
 
     for (size_t o = 0; o < nOps; ++o)
     {
@@ -357,13 +362,15 @@ Plan genCodec(const std::string& prop, int tier, uint64_t batchSeed, uint64_t id
             nMsg = r.chance(1, 6) ? 13 + r.below(28) : 1 + r.below(12);
         else
             nMsg = 1 + r.below(12);
-        const bool manyFrames = !wrapRun && r.chance(1, 40);  // more than 255 frames out of ONE call
+        if (manyCalls && nMsg > 2)
+            nMsg = 1 + r.below(2);
+        const bool manyFrames = !wrapRun && !manyCalls && r.chance(1, 40);  // more than 255 frames out of ONE call
         if (manyFrames)
         {
             maxB = r.range(25, 60);
             minB = r.chance(1, 2) ? 0 : r.range(0, maxB);
         }
-        const bool swarmOfTiny = !wrapRun && !manyFrames && !c09 && r.chance(1, 40);  // > 127 / > 255 messages in one frame
+        const bool swarmOfTiny = !wrapRun && !manyFrames && !manyCalls && !c09 && r.chance(1, 40);  // > 127 / > 255 messages in one frame
         int64_t swarmLen = 0;
         if (swarmOfTiny)
         {
@@ -384,7 +391,7 @@ Plan genCodec(const std::string& prop, int tier, uint64_t batchSeed, uint64_t id
             nMsg = 1;
         // estimate frames to keep runs short
         const int64_t per = maxB - 24;
-        int64_t maxFramesPerMsg = std::max<int64_t>(3, (frameBudget - framesSoFar) / std::max<size_t>(1, nMsg) / 2);
+        int64_t maxFramesPerMsg = manyCalls ? 2 : std::max<int64_t>(3, (frameBudget - framesSoFar) / std::max<size_t>(1, nMsg) / 2);
         maxFramesPerMsg = std::min<int64_t>(maxFramesPerMsg, tier ? 400 : (r.chance(1, 20) ? 300 : 150));  // sometimes more than 255 segments
         std::vector<Item> msgs;
         int64_t freeBytes = -1;
